@@ -145,6 +145,18 @@ class SymBuilder:
     def func(self, v):
         return v
 
+    def symdict(self, name, arity):
+        o = self.ctx.alloc(HObj('dict', 'symdict', {'name': name, 'arity': arity}, closed=True))
+        self.objects[name] = o
+        return o
+
+    def hidden(self, name):
+        """`n >= 0` list elements the function never touches"""
+        n = self.ctx._const(name, z3.IntSort())
+        self.ctx.assume(n >= 0)
+        self.leaves[name] = ('int', VInt(n))
+        return VHidden(n)
+
     def grid(self, name, rows, cols):
         from .grid import new_grid
         g = new_grid(self.ctx, name)
